@@ -10,6 +10,8 @@ import Gzx.Proofs.QRZigzag
 import Gzx.Proofs.QRPlacement
 import Gzx.Proofs.QRMatrix
 import Gzx.Proofs.QRCodewords
+import Gzx.Proofs.QRReadback
+import Gzx.Proofs.QRPenalty
 import Gzx.Proofs.QRCount0
 import Gzx.Proofs.QRCount1
 import Gzx.Proofs.QRCount2
@@ -223,6 +225,79 @@ theorem ref_matrix_is_spec (v : Nat) (ec : EC) (mask : Nat) (cw : List Nat) :
       (List.range (dimension v)).map (fun y => (List.range (dimension v)).map (fun x => moduleAt v ec mask cw x y)) :=
   refMatrix_eq_spec v ec mask cw
 
+/-- `ref_place_read_inv`: for versions 1..40, every level and mask and every sequence of
+    `totalCodewords v` byte values: reading the non-function modules of the reference symbol in
+    placement order, removing the mask (`readDataBits`) and grouping into bytes returns exactly
+    the codewords; what follows are the zero remainder bits. -/
+theorem ref_place_read_inv (v : Nat) (h1 : 1 ≤ v) (h40 : v ≤ 40) (ec : EC) (mask : Nat) (cw : List Nat)
+    (hl : cw.length = totalCodewords v) (hb : ∀ b ∈ cw, b < 256) :
+    bytesOfBits (totalCodewords v) (readDataBits v mask (moduleAt v ec mask cw)) = cw ∧
+    (readDataBits v mask (moduleAt v ec mask cw)).drop (8 * totalCodewords v) =
+      List.replicate (remainderBits v) false := by
+  have hc := std_zigzag_count v h1 h40
+  have := read_codewords v ec mask cw (by rw [hl, hc]; omega) hb
+  rw [hl, hc] at this
+  have e : 8 * totalCodewords v + remainderBits v - 8 * totalCodewords v = remainderBits v := by omega
+  rw [e] at this
+  exact this
+
+/-- the same for the symbol the reference encoder builds from a full set of data codewords -/
+theorem ref_place_read_inv_final (v : Nat) (h1 : 1 ≤ v) (h40 : v ≤ 40) (ec : EC) (mask : Nat) (data : List Nat)
+    (hd : data.length = dataCodewords v ec) (hb : ∀ d ∈ data, d < 256) :
+    bytesOfBits (totalCodewords v)
+      (readDataBits v mask (moduleAt v ec mask (finalCodewords v ec data))) = finalCodewords v ec data :=
+  (ref_place_read_inv v h1 h40 ec mask _ (final_codewords_length v h1 h40 ec data hd)
+    (finalCodewords_lt v ec data hb)).1
+
+/-- `ref_format_info_readback`: for versions 1..40 both copies of format bit `i` (positions of
+    Figure 25: `formatPos1 i` around the upper-left finder, `formatPos2 (dimension v) i` split
+    between the upper-right and lower-left finders) carry bit `i` of the BCH(15,5) word
+    `formatWord ec mask` — whatever the data. -/
+theorem ref_format_info_readback (v : Nat) (h1 : 1 ≤ v) (h40 : v ≤ 40) (ec : EC) (mask : Nat) (cw : List Nat)
+    (i : Nat) (hi : i < 15) :
+    moduleAt v ec mask cw (formatPos1 i).1 (formatPos1 i).2 = (formatWord ec mask).testBit i ∧
+    moduleAt v ec mask cw (formatPos2 (dimension v) i).1 (formatPos2 (dimension v) i).2 =
+      (formatWord ec mask).testBit i := by
+  have h := formatPos_all (v - 1) (List.mem_range.mpr (by omega))
+  have hv : v - 1 + 1 = v := by omega
+  rw [hv] at h
+  unfold formatPosOK at h
+  simp only [List.all_eq_true, List.mem_range, Bool.and_eq_true, beq_iff_eq] at h
+  obtain ⟨⟨⟨r1, r2⟩, f1⟩, f2⟩ := h i hi
+  exact ⟨moduleAt_format v ec mask cw _ _ i r1 f1, moduleAt_format v ec mask cw _ _ i r2 f2⟩
+
+/-- `ref_version_info_readback`: for versions 7..40 both copies of version bit `i` (lower-left
+    block `versionPos1`, upper-right block `versionPos2`, Figures 26/27) carry bit `i` of the
+    BCH(18,6) word `versionWord v`. -/
+theorem ref_version_info_readback (v : Nat) (h7 : 7 ≤ v) (h40 : v ≤ 40) (ec : EC) (mask : Nat) (cw : List Nat)
+    (i : Nat) (hi : i < 18) :
+    moduleAt v ec mask cw (versionPos1 (dimension v) i).1 (versionPos1 (dimension v) i).2 = (versionWord v).testBit i ∧
+    moduleAt v ec mask cw (versionPos2 (dimension v) i).1 (versionPos2 (dimension v) i).2 =
+      (versionWord v).testBit i := by
+  have h := versionPos_all (v - 7) (List.mem_range.mpr (by omega))
+  have hv : v - 7 + 7 = v := by omega
+  rw [hv] at h
+  unfold versionPosOK at h
+  simp only [List.all_eq_true, List.mem_range, Bool.and_eq_true, beq_iff_eq] at h
+  obtain ⟨⟨⟨r1, r2⟩, f1⟩, f2⟩ := h i hi
+  exact ⟨moduleAt_version v ec mask cw _ _ i r1 f1, moduleAt_version v ec mask cw _ _ i r2 f2⟩
+
+/-- the format and version words are recovered from the symbol: reading bit by bit and
+    reassembling gives `formatWord` (below 2^15) -/
+theorem ref_format_word_readback (v : Nat) (h1 : 1 ≤ v) (h40 : v ≤ 40) (ec : EC) (mask : Nat) (cw : List Nat) :
+    (List.range 15).map (fun i => moduleAt v ec mask cw (formatPos1 i).1 (formatPos1 i).2) =
+      (List.range 15).map (fun i => (formatWord ec mask).testBit i) := by
+  apply List.map_congr_left
+  intro i hi
+  exact (ref_format_info_readback v h1 h40 ec mask cw i (List.mem_range.mp hi)).1
+
+/-- entry (x, y) of the driver's matrix (rows of modules) is `moduleAt x y`: every theorem above
+    stated over `moduleAt` holds for the matrix the oracle compares with the library -/
+theorem ref_matrix_at (v : Nat) (ec : EC) (mask : Nat) (cw : List Nat) (x y : Nat)
+    (hx : x < dimension v) (hy : y < dimension v) :
+    matrixAt (refMatrix v ec mask cw) x y = moduleAt v ec mask cw x y := by
+  rw [refMatrix_eq_spec]; exact specMatrix_at v ec mask cw x y hx hy
+
 /-! ### masks -/
 
 /-- `mask_formula_equiv`, arithmetic content: the rewritings used by the decoder
@@ -251,6 +326,39 @@ theorem mask_periodic (k x y : Nat) : maskBit k (x + 12) y = maskBit k x y ∧ m
   · exact small k hk8
   · unfold maskBit
     split <;> first | omega | exact ⟨rfl, rfl⟩
+
+/-! ### mask evaluation (Table 11) -/
+
+/-- N1: the run penalty of every row and column line is the sum over its maximal same-colour
+    runs of `3 + (length − 5)` for runs of at least five modules (and the runs partition the line) -/
+theorem penalty_n1 (row : List Bool) :
+    runPenalty row none 0 = sumN ((lineRuns row).map runScore) ∧ sumN (lineRuns row) = row.length :=
+  ⟨penalty_n1_line row, lineRuns_sum row⟩
+
+/-- N2: a solid m x n block scores 3·(m−1)·(n−1), the standard's block formula -/
+theorem penalty_n2 (c : Bool) (m n : Nat) (hm : 1 ≤ m) (hn : 1 ≤ n) :
+    penalty2 (List.replicate m (solidRow c n)) = 3 * ((m - 1) * (n - 1)) := penalty_n2_block c m n hm hn
+
+/-- N3: per line, the number of positions where 1:1:3:1:1 (dark-light-dark-light-dark) starts with
+    four light modules (or the symbol edge) before or after it -/
+theorem penalty_n3 (row : List Bool) :
+    finderLike [] row =
+      ((List.range row.length).filter (fun i => n3Here ((row.take i).reverse) (row.drop i))).length := by
+  have := penalty_n3_line row []
+  simpa using this
+
+/-- N4: 10·k for a dark proportion between 50 ± 5k % and 50 ± 5(k+1) % -/
+theorem penalty_n4 (m : List (List Bool)) (hpos : 0 < QRRef.sumL (m.map List.length)) :
+    ∃ k, penalty4 m = 10 * k ∧
+      k * QRRef.sumL (m.map List.length) ≤
+        10 * (if 2 * QRRef.sumL (m.map (fun r => r.count true)) ≥ QRRef.sumL (m.map List.length)
+              then 2 * QRRef.sumL (m.map (fun r => r.count true)) - QRRef.sumL (m.map List.length)
+              else QRRef.sumL (m.map List.length) - 2 * QRRef.sumL (m.map (fun r => r.count true))) ∧
+      10 * (if 2 * QRRef.sumL (m.map (fun r => r.count true)) ≥ QRRef.sumL (m.map List.length)
+              then 2 * QRRef.sumL (m.map (fun r => r.count true)) - QRRef.sumL (m.map List.length)
+              else QRRef.sumL (m.map List.length) - 2 * QRRef.sumL (m.map (fun r => r.count true)))
+        < (k + 1) * QRRef.sumL (m.map List.length) :=
+  penalty_n4_spec m _ _ rfl rfl hpos
 
 /-! ### non-vacuity -/
 
